@@ -26,6 +26,17 @@ pub(crate) fn eval_expr(ctx: &Context, expr: &Expr) -> Result<Value, QueryError>
         Expr::Unit { ref name } if name == "now" => Ok(Value::DateTime(GenericDateTime::Fixed(
             ctx.now.fixed_offset(),
         ))),
+        // A name defined exactly wins over a prefix + unit or plural
+        // reading of the same letters, also when what it defines is a
+        // substance: `hg` is mercury, not a hectogram.
+        Expr::Unit { ref name }
+            if ctx.registry.substances.contains_key(name)
+                && !ctx.registry.units.contains_key(name)
+                && !ctx.registry.base_units.contains(&name[..])
+                && ctx.lookup(name) == ctx.registry.lookup(name) =>
+        {
+            Ok(Value::Substance(ctx.registry.substances[name].clone()))
+        }
         Expr::Unit { ref name } => ctx
             .lookup(name)
             .map(Value::Number)
